@@ -8,6 +8,7 @@ From Verif Require Import Lib.Base Decode.GoSlice Decode.GoSliceFacts Decode.Nod
   Decode.More Decode.MoreProofs Decode.StreamDepth Decode.StreamDepthProofs Decode.Coverage Gen.DecoderInventory
   Decode.CborValue Decode.CborValueProofs
   Gen.DecodeConsts Gen.QuoteConsts Gen.MiscConsts.
+From Verif Require Decode.Conn Decode.ConnProofs.
 
 Theorem gen_layout_expected :
   DepthSize = 2 /\ ValueLengthSize = 4 /\ HashSize = 32 /\
@@ -423,3 +424,37 @@ Theorem cbor_verdict_examples :
   cbor_unmarshal_verdict [1; 255; 255] = WOk (Some true).
 Proof. exact CborValueProofs.cbor_verdict_examples. Qed.
 Print Assumptions cbor_verdict_examples.
+
+(* ---------- runtime-host protocol connection: message handling state machine ----------
+   (go/runtime/host/protocol/connection.go handleMessage / workerIncoming / call / Close) for
+   EVERY sequence of local calls, inbound frames (responses for any id in any multiplicity,
+   requests, unknown types, malformed frames) and Close *)
+Theorem conn_no_block : forall evs,
+  (forall kv, In kv (Conn.sends (Conn.run true evs)) -> snd kv <= 1) /\
+  Conn.blocked (Conn.run true evs) = 0 /\ Conn.close_returns (Conn.run true evs) = true.
+Proof. exact ConnProofs.conn_no_block_l. Qed.
+Print Assumptions conn_no_block.
+
+Theorem conn_inbound_does_not_grow : forall s m,
+  (length (Conn.pending (Conn.step true s (Conn.EFrame m))) <= length (Conn.pending s))%nat.
+Proof. exact ConnProofs.conn_inbound_does_not_grow_l. Qed.
+Print Assumptions conn_inbound_does_not_grow.
+
+Theorem conn_close_empties : forall del s,
+  Conn.pending (Conn.step del s Conn.EClose) = [] /\
+  Conn.pending (Conn.step del s (Conn.EFrame Conn.IMalformed)) = [] \/ Conn.closed s = true.
+Proof. exact ConnProofs.conn_close_empties_l. Qed.
+Print Assumptions conn_close_empties.
+
+Theorem conn_closed_stays_empty : forall del s e, Conn.closed s = true -> Conn.pending s = [] ->
+  Conn.closed (Conn.step del s e) = true /\ Conn.pending (Conn.step del s e) = [].
+Proof. exact ConnProofs.conn_closed_stays_empty_l. Qed.
+Print Assumptions conn_closed_stays_empty.
+
+(* the variant that leaves the deletion to call()'s deferred function blocks a handler
+   goroutine forever on the third copy of a response: Close() never returns *)
+Theorem conn_nodelete_blocks :
+  exists evs, Conn.blocked (Conn.run false evs) = 1 /\ Conn.close_returns (Conn.run false evs) = false /\
+              Conn.blocked (Conn.run true evs) = 0.
+Proof. exact ConnProofs.conn_nodelete_blocks_l. Qed.
+Print Assumptions conn_nodelete_blocks.
